@@ -36,11 +36,11 @@ Inductive unop := Not | USub | Invert.
 
 Inductive builtin :=
 | BLen | BOrd | BChr | BRange | BDivmod | BHex | BBin | BFromHex
-| BFromBytesBig | BFromBytesLittle | BAny | BAll | BBytes | BInt | BStr | BMin | BMax | BBool | BListOf | BIsInt | BIntDiv | BChunks | BIsInstanceInt.
+| BFromBytesBig | BFromBytesLittle | BAny | BAll | BBytes | BInt | BStr | BMin | BMax | BBool | BListOf | BIsInt | BIntDiv | BChunks | BIsInstanceInt | BB64Encode.
 
 Inductive meth :=
 | MLower | MUpper | MFind | MRfind | MIndex | MJoin | MToBytesBig | MToBytesLittle
-| MStartswith | MEndswith | MHex | MZfill | MSplit | MStrip | MIsdigit | MEncodeAscii | MFormat | MEncodeUtf8.
+| MStartswith | MEndswith | MHex | MZfill | MSplit | MStrip | MIsdigit | MEncodeAscii | MFormat | MEncodeUtf8 | MDecode.
 
 Inductive expr : Type :=
 | EConst (v : val)
